@@ -234,9 +234,14 @@ func (e *Exec) load(s *State, obj, cell string, t types.Type) Val {
 	for i, l := range ls {
 		addr := cell
 		if i > 0 {
-			addr = c.I("(+ %s %d)", cell, i)
+			addr = c.add(cell, fmt.Sprint(i))
 		}
-		v := c.I("(select (select %s %s) %s)", s.heaps[l.kind], obj, addr)
+		var v string
+		if r, ok := c.readHeap(s.heaps[l.kind], obj, addr); ok && c.raw == 0 {
+			v = r // resolved syntactically through the store chain
+		} else {
+			v = c.I("(select (select %s %s) %s)", s.heaps[l.kind], obj, addr)
+		}
 		// heap well-typedness (Go type safety): every cell of heap kind k holds a value of k's range
 		c.assume("true", c.inRange(v, l))
 		if !l.signed && l.bits > 0 && l.bits < 64 {
@@ -337,7 +342,7 @@ func (e *Exec) store(s *State, in ssa.Instruction, obj, cell string, t types.Typ
 	for i, l := range ls {
 		addr := cell
 		if i > 0 {
-			addr = c.I("(+ %s %d)", cell, i)
+			addr = c.add(cell, fmt.Sprint(i))
 		}
 		h := s.heaps[l.kind]
 		s.heaps[l.kind] = c.H("(store %s %s (store (select %s %s) %s %s))", h, obj, h, obj, addr, v[i])
@@ -354,7 +359,7 @@ func (e *Exec) alloc(s *State, t types.Type) string {
 		if !seen[l.kind] {
 			seen[l.kind] = true
 			h := s.heaps[l.kind]
-			s.heaps[l.kind] = c.H("(store %s %s ((as const (Array Int Int)) 0))", h, obj)
+			s.heaps[l.kind] = c.H("(store %s %s zeroRow)", h, obj)
 		}
 	}
 	return obj
@@ -423,7 +428,7 @@ func (e *Exec) step(s *State, in ssa.Instruction) {
 		e.nilCheck(s, in, p[0])
 		st := x.X.Type().Underlying().(*types.Pointer).Elem().Underlying().(*types.Struct)
 		off := fieldOffset(st, x.Field)
-		s.regs[x] = Val{p[0], c.I("(+ %s %d)", p[1], off)}
+		s.regs[x] = Val{p[0], c.add(p[1], fmt.Sprint(off))}
 	case *ssa.Field:
 		v := e.val(s, x.X)
 		st := x.X.Type().Underlying().(*types.Struct)
@@ -436,14 +441,14 @@ func (e *Exec) step(s *State, in ssa.Instruction) {
 			sl := e.val(s, x.X)
 			c.oblige(e.obl("safety", "index", in), s.pc, c.B("(and (<= 0 %s) (< %s %s))", idx, idx, sl[2]))
 			n := cells(xt.Elem())
-			s.regs[x] = Val{sl[0], c.I("(+ %s (* %s %d))", sl[1], idx, n)}
+			s.regs[x] = Val{sl[0], c.add(sl[1], c.mulK(idx, n))}
 		case *types.Pointer:
 			arr := xt.Elem().Underlying().(*types.Array)
 			p := e.val(s, x.X)
 			e.nilCheck(s, in, p[0])
 			c.oblige(e.obl("safety", "index", in), s.pc, c.B("(and (<= 0 %s) (< %s %d))", idx, idx, arr.Len()))
 			n := cells(arr.Elem())
-			s.regs[x] = Val{p[0], c.I("(+ %s (* %s %d))", p[1], idx, n)}
+			s.regs[x] = Val{p[0], c.add(p[1], c.mulK(idx, n))}
 		default:
 			fail("IndexAddr on %s", x.X.Type())
 		}
@@ -1014,7 +1019,7 @@ func (e *Exec) slice(s *State, x *ssa.Slice) {
 		mx = e.val(s, x.Max)[0]
 	}
 	c.oblige(e.obl("safety", "slice", x), s.pc, c.B("(and (<= 0 %s) (<= %s %s) (<= %s %s) (<= %s %s))", lo, lo, hi, hi, mx, mx, cp))
-	noff := c.I("(+ %s (* %s %d))", off, lo, stride)
+	noff := c.add(off, c.mulK(lo, stride))
 	// a nil slice stays nil (offset 0)
 	s.regs[x] = Val{obj, c.ite("Int", c.B("(= %s 0)", obj), "0", noff), c.I("(- %s %s)", hi, lo), c.I("(- %s %s)", mx, lo)}
 }
